@@ -1,10 +1,34 @@
 (** * ScanProofs: the range scan returns exactly the entries of the interval (C03).
 
-    Stage 1  [scan_validate_spec]   argument validation = [spec_scan_args_ok]
-    Stage 2-5 ...                   (see the end of the file for the list of results) *)
+    Results (all closed under the global context):
+    - [scan_validate_spec]   (stage 1) argument validation = [spec_scan_args_ok];
+    - [scan_full_partial]    (stage 2) root layer, both ends infinite, unlimited: the whole store;
+    - [scan_right_partial]   (stage 3) a right endpoint;
+    - [scan_left_partial]    (stage 4) both endpoints, left keys of any length (the descent
+                             length is truncated to 8 bits: [descent_equiv]);
+    - [scan_layers_partial]  (stage 5 + max_size) any layer / accumulator / max_size, the
+                             recursion through the links ([scan_layer_fwd]);
+    - [scan_rtl_partial]     (stage 6) right to left with max_size 1: the greatest entry
+                             ([scan_layer_rtl]), needs [rtl_ok];
+    - [scan_refines]         the public [scan] against [spec_scan_list (abs_tree tr)], for every
+                             argument record, under [WF_store] AND two further hypotheses
+                             [root_live tr] and [sa_rtl a = true -> rtl_ok (t_layers tr)];
+    - [scan_null]            the null storage;
+    - [scan_inv]             = [seps_ok] (no separator (0xff..ff, 9)) /\ [live_ok] (a flagged border
+                             of layer 0 only in the empty store): implies [root_live] and [rtl_ok]
+                             ([scan_inv_sound]); holds on the null and on the empty store
+                             ([scan_inv_null], [scan_inv_empty]) and is preserved by put and remove
+                             ([put_scan_inv], [remove_scan_inv]);
+    - [scan_refines_inv] / [scan_refines_all]  the refinement for every store with
+                             [WF_store] and [scan_inv], i.e. every store reached by puts and removes;
+    - [ScanCounterexamples]  both extra hypotheses are necessary: from [WF_store] alone the
+                             refinement statement is false
+                             ([scan_refines_false_from_WF_store_alone]);
+    - [root_liveb] / [rtl_okb] decidable forms; [ScanExample] a 39-layer store on which the
+                             hypotheses hold and 1830 argument records are evaluated. *)
 From Coq Require Import ZArith NArith PeanoNat Lia ZifyBool ZifyN Bool List Sorted Permutation.
-From Yk Require Import ListAux Word64 PermDefs VersionDefs KeyDefs KeyProofs TreeDefs ScanDefs SysDefs
-     SpecDefs LeafProofs LayerProofs StoreProofs.
+From Yk Require Import ListAux Word64 PermDefs PermProofs VersionDefs VersionProofs KeyDefs KeyProofs TreeDefs
+     ScanDefs SysDefs SpecDefs LeafProofs LayerProofs VersionReportProofs StoreProofs.
 Import ListNotations.
 Local Open Scope N_scope.
 
@@ -1443,7 +1467,612 @@ Proof.
   - destruct (bt_elems root); [reflexivity|discriminate].
 Qed.
 
-(** ** 12. the statement without the two extra hypotheses is false: two well-formed
+(** ** 12. [rtl_ok] and [root_live] are invariants: they hold on the null and the empty store and
+    are preserved by put and remove ([scan_inv]); hence [scan_refines_inv] applies to every
+    store reached by puts and removes *)
+
+(** *** separators *)
+Definition nmax (s : ktuple) : Prop := s <> maxsep.
+Definition seps_good (t : bt) : Prop := Forall nmax (bt_seps t).
+Definition seps_ok (ls : layers_t) : Prop := Forall (fun pr => seps_good (snd pr)) ls.
+
+Lemma seps_ok_rtl ls : seps_ok ls -> rtl_ok ls.
+Proof.
+  intros H p root Eg Hin. apply layer_get_in in Eg. unfold seps_ok in H. rewrite Forall_forall in H.
+  specialize (H _ Eg). cbn [snd] in H. unfold seps_good in H. rewrite Forall_forall in H.
+  exact (H _ Hin eq_refl).
+Qed.
+
+Lemma seps_good_int id ver keys ch :
+  seps_good (BInt id ver keys ch) <-> Forall nmax keys /\ Forall seps_good ch.
+Proof. unfold seps_good. cbn [bt_seps]. rewrite Forall_app, Forall_flat_map. reflexivity. Qed.
+
+Lemma seps_good_leaf l : seps_good (BLeaf l).
+Proof. constructor. Qed.
+
+Lemma maxsep_max k : kt_wf k = true -> canon_lt maxsep k = false.
+Proof.
+  intros H. apply kt_wf_spec in H. destruct H as (H1 & H2 & _). unfold canon_lt, maxsep. cbn [ks kl]. lia.
+Qed.
+
+Definition ires_good (r : insres) : Prop :=
+  match r with
+  | IOne t => seps_good t
+  | ISplit l s r => nmax s /\ seps_good l /\ seps_good r
+  end.
+
+Lemma int_absorb_good id ver keys ch i l sep r nid :
+  Forall nmax keys -> Forall seps_good ch -> nmax sep -> seps_good l -> seps_good r ->
+  ires_good (int_absorb id ver keys ch i l sep r nid).
+Proof.
+  intros Hk Hc Hs Hl Hr. unfold int_absorb.
+  assert (Forall seps_good (set_nth i l ch)) as Hc1 by (apply Forall_set_nth; assumption).
+  set (ch1 := set_nth i l ch) in *.
+  destruct (Nat.eqb_spec (length keys) 15) as [E|E].
+  - assert (nmax (nth 7 keys {| ks := 0; kl := 0 |})) as Hp.
+    { rewrite Forall_forall in Hk. apply Hk. apply nth_In. lia. }
+    destruct (iins_probe sep (nth 7 keys {| ks := 0; kl := 0 |})); unfold int_insert; cbv beta iota zeta;
+      cbn [ires_good]; (split; [exact Hp|]); split; apply seps_good_int; split;
+      repeat first [assumption | apply Forall_insert_at | apply LeafProofs.Forall_firstn | apply LeafProofs.Forall_skipn].
+  - unfold int_insert. cbv beta iota zeta. cbn [ires_good]. apply seps_good_int.
+    split; apply Forall_insert_at; assumption.
+Qed.
+
+Lemma split_sep_nmax R sep :
+  WF_leaf R -> (7 <= length (leaf_entries R))%nat -> hd_error (leaf_keys R) = Some sep -> nmax sep.
+Proof.
+  intros (_ & _ & Hok & Hsorted) H7 Hhd E. subst sep.
+  unfold leaf_keys in *. destruct (leaf_entries R) as [|s0 [|s1 rest]]; cbn [length] in H7; try lia.
+  cbn [map hd_error] in Hhd, Hsorted. injection Hhd as Hs0.
+  apply sorted_cons_iff in Hsorted. destruct Hsorted as [_ Hlt]. rewrite Forall_forall in Hlt.
+  specialize (Hlt (sl_key s1) (or_introl eq_refl)). rewrite Hs0 in Hlt.
+  rewrite Forall_forall in Hok. destruct (Hok s1 (or_intror (or_introl eq_refl))) as [Hw _].
+  rewrite (maxsep_max _ Hw) in Hlt. discriminate.
+Qed.
+
+Lemma bt_put_good k lv fuel : forall t lo hi ctr res info ctr',
+  WF_bt lo hi t -> kt_wf k = true -> in_bnd lo hi k -> ~ In k (bt_keys t) ->
+  entry_ok {| sl_key := k; sl_lv := lv |} -> (bt_height t < fuel)%nat ->
+  bt_put fuel t k lv ctr = Some (res, info, ctr') -> seps_good t -> ires_good res.
+Proof.
+  induction fuel as [|f IH]; intros t lo hi ctr res info ctr' Hwf Hk Hbk Hnin Hok Hh E Hg; [lia|].
+  destruct t as [l|id ver keys ch]; cbn [bt_put] in *.
+  - apply WF_leaf_iff in Hwf. destruct Hwf as [Hl Hbl].
+    change (bt_keys (BLeaf l)) with (leaf_keys l) in Hnin.
+    destruct (N.eq_dec (leaf_cnk l) 15) as [E15|N15].
+    + destruct (leaf_put_split l k lv ctr Hl E15 Hk Hnin Hok) as (L & sep & R & info0 & El & Hpost).
+      rewrite El in E. injection E as <- <- <-.
+      destruct Hpost as (_ & _ & HwR & _ & _ & _ & H7 & _ & Hhd & _).
+      cbn [ires_good]. split; [eapply split_sep_nmax; eassumption|]. split; apply seps_good_leaf.
+    + destruct (leaf_put_nosplit l k lv ctr Hl N15 Hk Hnin Hok) as (l' & info0 & El & _).
+      rewrite El in E. injection E as <- <- <-. apply seps_good_leaf.
+  - apply WF_int_iff in Hwf. destruct Hwf as [Hn Hkids].
+    destruct (kids_route lo hi keys ch k Hkids Hk) as (Hi & Hbi & _).
+    specialize (Hbi Hbk). set (i := route keys k 0) in *.
+    pose proof Hkids as (Hlen & Hs & Hw & Hsb & Hc & Hne).
+    rewrite (nth_error_child ch i Hi) in *.
+    set (c := nth i ch dbt) in *.
+    assert (~ In k (bt_keys c)) as Hninc.
+    { intros X. apply Hnin. eapply child_keys_incl; eassumption. }
+    assert (bt_height c < f)%nat as Hhc.
+    { pose proof (height_child id ver keys ch i Hi) as H. fold c in H. lia. }
+    apply seps_good_int in Hg. destruct Hg as [Hgk Hgc].
+    assert (seps_good c) as Hgci.
+    { rewrite Forall_forall in Hgc. apply Hgc. apply nth_In. exact Hi. }
+    destruct (bt_put f c k lv ctr) as [[[resc infoc] ctrc]|] eqn:Ec; [|discriminate].
+    pose proof (IH c _ _ ctr resc infoc ctrc (Hc i Hi) Hk Hbi Hninc Hok Hhc Ec Hgci) as Hr.
+    destruct resc as [c'|l sep r].
+    + injection E as <- <- <-. cbn [ires_good] in *. apply seps_good_int.
+      split; [exact Hgk|apply Forall_set_nth; assumption].
+    + injection E as <- <- <-. cbn [ires_good] in Hr. destruct Hr as (H1 & H2 & H3).
+      apply int_absorb_good; assumption.
+Qed.
+
+Lemma layer_put_good root k lv ctr root' info ctr' :
+  WF_layer root -> kt_wf k = true -> ~ In k (bt_keys root) ->
+  entry_ok {| sl_key := k; sl_lv := lv |} ->
+  layer_put root k lv ctr = Some (root', info, ctr') -> seps_good root -> seps_good root'.
+Proof.
+  intros [Hwf _] Hk Hnin Hok E Hg. unfold layer_put in E.
+  destruct (bt_put (S (bt_height root)) root k lv ctr) as [[[res info0] c0]|] eqn:Eb; [|discriminate].
+  pose proof (bt_put_good k lv (S (bt_height root)) root None None ctr res info0 c0 Hwf Hk
+                (conj I I) Hnin Hok ltac:(lia) Eb Hg) as Hr.
+  destruct res as [t|l sep r]; injection E as <- <- <-.
+  - exact Hr.
+  - cbn [ires_good] in Hr. destruct Hr as (H1 & H2 & H3). apply seps_good_int.
+    split; [constructor; [exact H1|constructor]|]. constructor; [exact H2|]. constructor; [exact H3|constructor].
+Qed.
+
+Lemma bt_update_leaf_seps k f fuel : forall t, bt_seps (bt_update_leaf fuel t k f) = bt_seps t.
+Proof.
+  induction fuel as [|fu IH]; intros t; [reflexivity|].
+  destruct t as [l|id ver keys ch]; cbn [bt_update_leaf]; [reflexivity|].
+  cbv zeta. destruct (nth_error ch (route keys k 0)) as [c|] eqn:En; [|reflexivity].
+  assert (route keys k 0 < length ch)%nat as Hi by (apply nth_error_Some; congruence).
+  cbn [bt_seps]. f_equal. rewrite flat_map_set_nth by exact Hi.
+  rewrite (flat_map_split bt_seps dbt ch _ Hi). rewrite (nth_error_nth ch _ dbt En), IH. reflexivity.
+Qed.
+
+Lemma bt_set_ver_seps t v : bt_seps (bt_set_ver t v) = bt_seps t.
+Proof. destruct t; reflexivity. Qed.
+
+Lemma bt_delete_good k fuel : forall t t' ret,
+  bt_delete fuel t k = Some (DKept t', ret) -> seps_good t -> seps_good t'.
+Proof.
+  induction fuel as [|fu IH]; intros t t' ret E Hg; [discriminate|].
+  destruct t as [l|id ver keys ch]; cbn [bt_delete] in E.
+  - destruct (leaf_lookup l k) as [[[rank slot] s]|]; [|discriminate].
+    cbv zeta in E. destruct (leaf_cnk l =? 1)%N; [discriminate|]. injection E as <- <-. apply seps_good_leaf.
+  - cbv zeta in E. set (i := route keys k 0) in *.
+    apply seps_good_int in Hg. destruct Hg as [Hgk Hgc].
+    destruct (nth_error ch i) as [c|] eqn:En; [|discriminate].
+    assert (seps_good c) as Hgci.
+    { rewrite Forall_forall in Hgc. apply Hgc. eapply nth_error_In. exact En. }
+    destruct (bt_delete fu c k) as [[[c'|] ret0]|] eqn:Ed; [| |discriminate].
+    + injection E as <- <-. apply seps_good_int. split; [exact Hgk|].
+      apply Forall_set_nth; [exact Hgc|]. eapply IH; eassumption.
+    + destruct (Nat.eqb (length keys) 1).
+      * destruct (nth_error ch (1 - i)) as [sib|] eqn:Es; [|discriminate]. injection E as <- <-.
+        rewrite Forall_forall in Hgc. apply Hgc. eapply nth_error_In. exact Es.
+      * injection E as <- <-. apply seps_good_int. unfold remove_nth. split.
+        -- destruct (Nat.eqb i 0); apply Forall_remove_at; exact Hgk.
+        -- apply Forall_remove_at. exact Hgc.
+Qed.
+
+(** layers *)
+Lemma seps_ok_get ls p t : seps_ok ls -> layer_get ls p = Some t -> seps_good t.
+Proof.
+  intros H E. apply layer_get_in in E. unfold seps_ok in H. rewrite Forall_forall in H. exact (H _ E).
+Qed.
+
+Lemma seps_ok_set ls p t : seps_ok ls -> seps_good t -> seps_ok (layer_set ls p t).
+Proof.
+  intros H Ht. induction ls as [|[q u] ls IH]; cbn [layer_set].
+  - constructor; [exact Ht|constructor].
+  - apply Forall_cons_iff in H. destruct H as [H1 H2]. destruct (prefix_eqb q p).
+    + constructor; [exact Ht|exact H2].
+    + constructor; [exact H1|apply IH; exact H2].
+Qed.
+
+Lemma seps_ok_del ls p : seps_ok ls -> seps_ok (layer_del ls p).
+Proof.
+  intros H. induction ls as [|[q u] ls IH]; cbn [layer_del]; [constructor|].
+  apply Forall_cons_iff in H. destruct H as [H1 H2]. destruct (prefix_eqb q p); [exact H2|].
+  constructor; [exact H1|apply IH; exact H2].
+Qed.
+
+Lemma new_chain_seps v : forall ts p ctr ls, seps_ok ls -> seps_ok (fst (new_chain p ts v ctr ls)).
+Proof.
+  induction ts as [|t rest IH]; intros p ctr ls H; [exact H|]. cbn [new_chain].
+  destruct rest as [|t2 r].
+  - cbn [fst]. apply seps_ok_set; [exact H|apply seps_good_leaf].
+  - apply IH. apply seps_ok_set; [exact H|apply seps_good_leaf].
+Qed.
+
+Lemma put_walk_seps v unique : forall ts p ctr ls ls' o ctr',
+  WFL ctr ls None -> vp ts -> layer_get ls p <> None ->
+  put_walk ts p ls v unique ctr = Some (ls', o, ctr') -> seps_ok ls -> seps_ok ls'.
+Proof.
+  induction ts as [|t rest IH]; intros p ctr ls ls' o ctr' W V Hp E Hs; [contradiction|].
+  cbn [vp] in V. destruct V as [Hw V].
+  pose proof (wl_layer _ _ _ W) as Hwf.
+  destruct (layer_get ls p) as [root|] eqn:Eg; [|contradiction]. clear Hp.
+  destruct (walk_step ctr ls None p root t W Eg Hw) as (l & Ef & Hl).
+  pose proof (seps_ok_get ls p root Hs Eg) as Hgr.
+  cbn [put_walk] in E. rewrite Eg, Ef in E.
+  destruct (leaf_lookup l t) as [[[rk slot] s]|] eqn:El.
+  - destruct Hl as (Hin & Hst & He & Hoks). destruct rest as [|t2 r].
+    + destruct unique.
+      * injection E as <- _ _. exact Hs.
+      * injection E as <- _ _. apply seps_ok_set; [exact Hs|].
+        unfold seps_good, update_leaf. rewrite bt_update_leaf_seps. exact Hgr.
+    + destruct V as [H9 V]. pose proof Hoks as [_ Hok]. rewrite Hst in Hok.
+      destruct (sl_lv s) as [|ov|] eqn:Elv; [contradiction|lia|].
+      assert (layer_get ls (p ++ [ks t]) <> None) as Hsub.
+      { apply (wl_link _ _ _ W p root (ks t) Eg); [|discriminate].
+        rewrite (mk9_ks t H9), <- Hst, <- Elv, mk_eta. exact Hin. }
+      exact (IH (p ++ [ks t]) ctr ls ls' o ctr' W V Hsub E Hs).
+  - destruct Hl as [He Hnin].
+    set (lv := match rest with [] => LValue v | _ :: _ => LLink end) in *.
+    assert (entry_ok {| sl_key := t; sl_lv := lv |}) as Hokn.
+    { split; [exact Hw|]. unfold lv. cbn [sl_lv sl_key]. destruct rest; [exact V|apply V]. }
+    destruct (layer_put root t lv ctr) as [[[root' info] ctr1]|] eqn:Eput; [|discriminate].
+    pose proof (layer_put_good root t lv ctr root' info ctr1 (Hwf p root Eg) Hw Hnin Hokn Eput Hgr) as Hg'.
+    destruct (new_chain (p ++ [ks t]) rest v ctr1 (layer_set ls p root')) as [ls2 ctr2] eqn:Enc.
+    injection E as <- _ _.
+    change ls2 with (fst (ls2, ctr2)). rewrite <- Enc. apply new_chain_seps. apply seps_ok_set; assumption.
+Qed.
+
+Definition scan_seps (tr : tree) : Prop := seps_ok (t_layers tr).
+
+Theorem put_seps ctr tr k v unique tr' po ctr' :
+  WF_store ctr tr -> bytes k -> put tr k v unique ctr = Some (tr', po, ctr') ->
+  scan_seps tr -> scan_seps tr'.
+Proof.
+  unfold WF_store, put, scan_seps. intros W Hb E Hs. destruct (t_null tr).
+  - destruct (new_chain [] (path_of_key k) v ctr []) as [ls c] eqn:Enc. injection E as <- _ _.
+    cbn [t_layers]. change ls with (fst (ls, c)). rewrite <- Enc. apply new_chain_seps. constructor.
+  - destruct (put_walk (path_of_key k) [] (t_layers tr) v unique ctr) as [[[ls o] c]|] eqn:Ew; [|discriminate].
+    injection E as <- _ _. cbn [t_layers].
+    eapply put_walk_seps; [exact W|apply (path_vp k Hb)|exact (wl_exc _ _ _ W)|exact Ew|exact Hs].
+Qed.
+
+(** remove: purely structural *)
+Lemma layer_remove_seps ls p k ls' gone ret :
+  layer_remove ls p k = Some (ls', gone, ret) -> seps_ok ls -> seps_ok ls'.
+Proof.
+  unfold layer_remove. intros E Hs.
+  destruct (layer_get ls p) as [root|] eqn:Eg; [|discriminate].
+  pose proof (seps_ok_get ls p root Hs Eg) as Hgr.
+  destruct (bt_delete (S (bt_height root)) root k) as [[[root'|] ret0]|] eqn:Ed; [| |discriminate].
+  - injection E as <- _ _. apply seps_ok_set; [exact Hs|].
+    pose proof (bt_delete_good k _ root root' ret0 Ed Hgr) as Hg'.
+    destruct (N.eqb (bt_id root') (bt_id root)); [exact Hg'|].
+    unfold seps_good, set_root_flag. rewrite bt_set_ver_seps. exact Hg'.
+  - destruct p as [|x p].
+    + destruct root as [l|]; [|discriminate].
+      destruct (leaf_lookup l k) as [[[rank slot] s]|]; [|discriminate].
+      injection E as <- _ _. apply seps_ok_set; [exact Hs|apply seps_good_leaf].
+    + injection E as <- _ _. apply seps_ok_del. exact Hs.
+Qed.
+
+Lemma cascade_seps : forall fuel ls p ret ls' ret',
+  cascade fuel ls p ret = Some (ls', ret') -> seps_ok ls -> seps_ok ls'.
+Proof.
+  induction fuel as [|f IH]; intros ls p ret ls' ret' E Hs; [discriminate|].
+  cbn [cascade] in E. destruct (rev p) as [|s q]; [injection E as <- _; exact Hs|].
+  destruct (layer_remove ls (remove_last p) {| ks := s; kl := 9 |}) as [[[ls1 gone] ret1]|] eqn:El; [|discriminate].
+  pose proof (layer_remove_seps _ _ _ _ _ _ El Hs) as Hs1.
+  destruct gone; [eapply IH; eassumption|]. injection E as <- _. exact Hs1.
+Qed.
+
+Lemma remove_walk_seps : forall ts p ls ls' o,
+  remove_walk ts p ls = Some (ls', o) -> seps_ok ls -> seps_ok ls'.
+Proof.
+  induction ts as [|t rest IH]; intros p ls ls' o E Hs; [discriminate|].
+  cbn [remove_walk] in E.
+  destruct (layer_get ls p) as [root|]; [|discriminate].
+  destruct (find_leaf root t) as [l|]; [|discriminate].
+  destruct (leaf_lookup l t) as [[[rk slot] s]|]; [|injection E as <- _; exact Hs].
+  destruct rest as [|t2 r]; [|eapply IH; eassumption].
+  destruct (layer_remove ls p t) as [[[ls1 gone] ret1]|] eqn:El; [|discriminate].
+  pose proof (layer_remove_seps _ _ _ _ _ _ El Hs) as Hs1.
+  destruct gone.
+  - destruct (cascade (S (length p)) ls1 p ret1) as [[ls2 ret2]|] eqn:Ec; [|discriminate].
+    injection E as <- _. eapply cascade_seps; eassumption.
+  - injection E as <- _. exact Hs1.
+Qed.
+
+Theorem remove_seps tr k tr' ro : remove tr k = Some (tr', ro) -> scan_seps tr -> scan_seps tr'.
+Proof.
+  unfold remove, scan_seps. intros E Hs. destruct (t_null tr); [injection E as <- _; exact Hs|].
+  destruct (remove_walk (path_of_key k) [] (t_layers tr)) as [[ls o]|] eqn:Ew; [|discriminate].
+  injection E as <- _. cbn [t_layers]. eapply remove_walk_seps; eassumption.
+Qed.
+
+(** *** the deleted flag *)
+Definition live_ok (ls : layers_t) : Prop :=
+  forall root lf, layer_get ls [] = Some root -> In lf (bt_leaves root) ->
+    get_deleted (lf_ver lf) = true -> bt_elems root = [].
+
+Lemma live_ok_root_live tr : live_ok (t_layers tr) -> root_live tr.
+Proof.
+  intros H root lf Eg Hin Hd. apply andb_true_iff in Hd. destruct Hd as [Hd _]. exact (H root lf Eg Hin Hd).
+Qed.
+
+Lemma live_ok_same ls ls' : layer_get ls' [] = layer_get ls [] -> live_ok ls -> live_ok ls'.
+Proof. intros E H root lf Eg. rewrite E in Eg. exact (H root lf Eg). Qed.
+
+Lemma gd_unlock w : get_deleted (unlock w) = get_deleted w.
+Proof. apply (unlock_getters w). Qed.
+Lemma gd_locked w b : get_deleted (set_locked w b) = get_deleted w.
+Proof. apply (set_locked_frame w b). Qed.
+Lemma gd_insdel w b : get_deleted (set_inserting_deleting w b) = get_deleted w.
+Proof. vframe. Qed.
+Lemma gd_splitting w b : get_deleted (set_splitting w b) = get_deleted w.
+Proof. vframe. Qed.
+Lemma gd_root w b : get_deleted (set_root w b) = get_deleted w.
+Proof. vframe. Qed.
+
+(** every border written by an insert has the flag of the old border, or [false] if that was empty *)
+Lemma leaf_put_deleted l k lv nid r0 info :
+  leaf_put l k lv nid = (r0, info) ->
+  forall l', In l' (ires_leaves r0) ->
+    get_deleted (lf_ver l') = if (leaf_cnk l =? 0)%N then false else get_deleted (lf_ver l).
+Proof.
+  unfold leaf_put.
+  set (v1 := if (leaf_cnk l =? 0)%N
+             then set_deleted (set_inserting_deleting (v_lock (lf_ver l)) true) false
+             else set_inserting_deleting (v_lock (lf_ver l)) true).
+  assert (get_deleted v1 = if (leaf_cnk l =? 0)%N then false else get_deleted (lf_ver l)) as D1.
+  { unfold v1, v_lock. destruct (leaf_cnk l =? 0)%N.
+    - apply get_deleted_set_deleted.
+    - rewrite gd_insdel, gd_locked. reflexivity. }
+  cbv zeta. fold v1.
+  destruct (N.eqb_spec (leaf_cnk l) 15) as [E15|N15].
+  - set (v2 := set_splitting v1 true) in *.
+    assert (get_deleted (unlock (set_root v2 false)) =
+            if (leaf_cnk l =? 0)%N then false else get_deleted (lf_ver l)) as D2.
+    { rewrite gd_unlock, gd_root. unfold v2. rewrite gd_splitting. exact D1. }
+    pose proof (split_moves_id_ver 7 0 (leaf_with l v2 (lf_perm l) (lf_slots l)) fresh_slots) as [M1 M2].
+    destruct (split_moves 7 0 (leaf_with l v2 (lf_perm l) (lf_slots l)) fresh_slots) as [old ns].
+    cbn [fst leaf_with lf_id lf_ver] in M1, M2.
+    destruct (bsplit_left _ _ _ _); intros E; injection E as <- _;
+      cbn [ires_leaves bt_leaves app]; intros l' [<-|[<-|[]]];
+      cbn [leaf_with leaf_insert_at lf_id lf_ver]; rewrite ?M2; exact D2.
+  - intros E. injection E as <- _. cbn [ires_leaves bt_leaves]. intros l' [<-|[]].
+    cbn [leaf_with leaf_insert_at lf_id lf_ver]. rewrite gd_unlock. exact D1.
+Qed.
+
+(** an interior node has elements *)
+Lemma empty_root_leaf lo hi root : WF_bt lo hi root -> bt_elems root = [] -> exists l, root = BLeaf l.
+Proof.
+  intros Hwf He. destruct root as [l|id ver keys ch]; [exists l; reflexivity|].
+  apply WF_int_iff in Hwf. destruct Hwf as [_ Hkids].
+  exfalso. exact (kids_nonempty _ _ _ _ Hkids He).
+Qed.
+
+Lemma leaf_versions_in t lf :
+  In lf (bt_leaves t) -> In (lf_id lf, lf_ver lf) (leaf_versions t).
+Proof. intros H. unfold leaf_versions. apply (in_map (fun l => (lf_id l, lf_ver l))). exact H. Qed.
+
+Lemma leaf_versions_inv t i w :
+  In (i, w) (leaf_versions t) -> exists lf, In lf (bt_leaves t) /\ lf_ver lf = w.
+Proof.
+  unfold leaf_versions. intros H. apply in_map_iff in H. destruct H as (lf & E & H).
+  injection E as _ <-. exists lf. split; [exact H|reflexivity].
+Qed.
+
+Lemma new_chain_get0 v : forall ts p ctr ls, p <> [] ->
+  layer_get (fst (new_chain p ts v ctr ls)) [] = layer_get ls [].
+Proof.
+  induction ts as [|t rest IH]; intros p ctr ls Hp; [reflexivity|]. cbn [new_chain].
+  destruct rest as [|t2 r].
+  - cbn [fst]. apply layer_get_set_other. exact Hp.
+  - rewrite IH by (destruct p; discriminate). apply layer_get_set_other. exact Hp.
+Qed.
+
+Lemma put_walk_live v unique : forall ts p ctr ls ls' o ctr',
+  WFL ctr ls None -> vp ts -> layer_get ls p <> None ->
+  put_walk ts p ls v unique ctr = Some (ls', o, ctr') -> live_ok ls -> live_ok ls'.
+Proof.
+  induction ts as [|t rest IH]; intros p ctr ls ls' o ctr' W V Hp E Hs; [contradiction|].
+  cbn [vp] in V. destruct V as [Hw V].
+  pose proof (wl_layer _ _ _ W) as Hwf.
+  destruct (layer_get ls p) as [root|] eqn:Eg; [|contradiction]. clear Hp.
+  destruct (walk_step ctr ls None p root t W Eg Hw) as (l & Ef & Hl).
+  cbn [put_walk] in E. rewrite Eg, Ef in E.
+  destruct (leaf_lookup l t) as [[[rk slot] s]|] eqn:El.
+  - destruct Hl as (Hin & Hst & He & Hoks). destruct rest as [|t2 r].
+    + destruct unique.
+      * injection E as <- _ _. exact Hs.
+      * injection E as <- _ _. destruct p as [|x p].
+        2:{ eapply live_ok_same; [|exact Hs]. apply layer_get_set_other. discriminate. }
+        intros root' lf' Eg' Hin' Hd. rewrite layer_get_set_same in Eg'. injection Eg' as <-.
+        apply leaf_versions_in in Hin'. rewrite c12_overwrite_silent in Hin'.
+        apply leaf_versions_inv in Hin'. destruct Hin' as (lf & Hlf & Ev).
+        rewrite <- Ev in Hd. pose proof (Hs root lf Eg Hlf Hd) as X. rewrite X in Hin. destruct Hin.
+    + destruct V as [H9 V]. pose proof Hoks as [_ Hok]. rewrite Hst in Hok.
+      destruct (sl_lv s) as [|ov|] eqn:Elv; [contradiction|lia|].
+      assert (layer_get ls (p ++ [ks t]) <> None) as Hsub.
+      { apply (wl_link _ _ _ W p root (ks t) Eg); [|discriminate].
+        rewrite (mk9_ks t H9), <- Hst, <- Elv, mk_eta. exact Hin. }
+      exact (IH (p ++ [ks t]) ctr ls ls' o ctr' W V Hsub E Hs).
+  - destruct Hl as [He Hnin].
+    set (lv := match rest with [] => LValue v | _ :: _ => LLink end) in *.
+    assert (entry_ok {| sl_key := t; sl_lv := lv |}) as Hokn.
+    { split; [exact Hw|]. unfold lv. cbn [sl_lv sl_key]. destruct rest; [exact V|apply V]. }
+    destruct (layer_put root t lv ctr) as [[[root' info] ctr1]|] eqn:Eput; [|discriminate].
+    destruct (new_chain (p ++ [ks t]) rest v ctr1 (layer_set ls p root')) as [ls2 ctr2] eqn:Enc.
+    injection E as <- _ _.
+    change ls2 with (fst (ls2, ctr2)). rewrite <- Enc.
+    eapply live_ok_same; [apply new_chain_get0; destruct p; discriminate|].
+    destruct p as [|x p].
+    2:{ eapply live_ok_same; [|exact Hs]. apply layer_get_set_other. discriminate. }
+    (* the insert is in layer 0: afterwards no border is flagged *)
+    intros root1 lf' Eg' Hin' Hd. rewrite layer_get_set_same in Eg'. injection Eg' as <-. exfalso.
+    destruct (layer_put_leaves root t lv ctr root' info ctr1 (Hwf [] root Eg) Hw Hnin Hokn Eput)
+      as (lm & A & B & r0 & _ & HL & ELP & HR).
+    assert (forall lf, In lf (bt_leaves root) -> get_deleted (lf_ver lf) = true ->
+              root = BLeaf lf /\ leaf_cnk lf = 0) as Hdel.
+    { intros lf Hlf Hdl. pose proof (Hs root lf Eg Hlf Hdl) as X.
+      destruct (empty_root_leaf None None root (proj1 (Hwf [] root Eg)) X) as [l0 ->].
+      cbn [bt_leaves] in Hlf. destruct Hlf as [->|[]]. split; [reflexivity|].
+      cbn [bt_elems] in X. pose proof (leaf_entries_length lf) as Y. rewrite X in Y. cbn [length] in Y. lia. }
+    rewrite HR in Hin'. apply in_app_or in Hin'. destruct Hin' as [Hin'|Hin'];
+      [|apply in_app_or in Hin'; destruct Hin' as [Hin'|Hin']].
+    + destruct (Hdel lf') as [-> _]; [rewrite HL; apply in_or_app; left; exact Hin'|exact Hd|].
+      cbn [bt_leaves] in HL. destruct A as [|a A]; [destruct Hin'|].
+      destruct A; discriminate HL.
+    + rewrite (leaf_put_deleted lm t lv ctr r0 info ELP lf' Hin') in Hd.
+      destruct (N.eqb_spec (leaf_cnk lm) 0) as [E0|N0]; [discriminate|].
+      destruct (Hdel lm) as [_ X]; [rewrite HL; apply in_or_app; right; left; reflexivity|exact Hd|].
+      contradiction.
+    + destruct (Hdel lf') as [-> _]; [rewrite HL; apply in_or_app; right; right; exact Hin'|exact Hd|].
+      cbn [bt_leaves] in HL. destruct A as [|a A].
+      * cbn [app] in HL. injection HL as _ <-. destruct Hin'.
+      * destruct A; discriminate HL.
+Qed.
+
+Lemma single_leaf_live id k lv ls :
+  layer_get ls [] = Some (BLeaf (single_leaf id k lv)) -> live_ok ls.
+Proof.
+  intros Eg root lf Eg' Hin Hd. rewrite Eg in Eg'. injection Eg' as <-.
+  cbn [bt_leaves] in Hin. destruct Hin as [<-|[]].
+  unfold single_leaf in Hd. rewrite leaf_insert_at_ver in Hd. cbn [lf_ver] in Hd.
+  vm_compute in Hd. discriminate Hd.
+Qed.
+
+Definition scan_live (tr : tree) : Prop := live_ok (t_layers tr).
+
+Theorem put_live ctr tr k v unique tr' po ctr' :
+  WF_store ctr tr -> bytes k -> put tr k v unique ctr = Some (tr', po, ctr') ->
+  scan_live tr -> scan_live tr'.
+Proof.
+  unfold WF_store, put, scan_live. intros W Hb E Hs. destruct (t_null tr).
+  - destruct (new_chain [] (path_of_key k) v ctr []) as [ls c] eqn:Enc. injection E as <- _ _.
+    cbn [t_layers]. change ls with (fst (ls, c)). rewrite <- Enc.
+    destruct (path_of_key k) as [|t rest]; [intros root lf Eg; discriminate Eg|].
+    cbn [new_chain]. destruct rest as [|t2 r].
+    + cbn [fst layer_set]. eapply single_leaf_live. reflexivity.
+    + eapply live_ok_same; [apply new_chain_get0; discriminate|].
+      cbn [layer_set]. eapply single_leaf_live. reflexivity.
+  - destruct (put_walk (path_of_key k) [] (t_layers tr) v unique ctr) as [[[ls o] c]|] eqn:Ew; [|discriminate].
+    injection E as <- _ _. cbn [t_layers].
+    eapply put_walk_live; [exact W|apply (path_vp k Hb)|exact (wl_exc _ _ _ W)|exact Ew|exact Hs].
+Qed.
+
+(** remove *)
+Lemma lookup_ranked_nonempty es k : forall n r, lookup_ranked es k n = Some r -> es <> [].
+Proof. intros n r H ->. discriminate H. Qed.
+
+Lemma bt_delete_nonempty k fuel : forall t r, bt_delete fuel t k = Some r -> bt_elems t <> [].
+Proof.
+  induction fuel as [|fu IH]; intros t r E; [discriminate|].
+  destruct t as [l|id ver keys ch]; cbn [bt_delete] in E.
+  - destruct (leaf_lookup l k) as [x|] eqn:El; [|discriminate].
+    unfold leaf_lookup in El. apply lookup_ranked_nonempty in El.
+    cbn [bt_elems]. unfold leaf_entries. intros X. apply El. destruct (leaf_ranked l); [reflexivity|discriminate X].
+  - cbv zeta in E. destruct (nth_error ch (route keys k 0)) as [c|] eqn:En; [|discriminate].
+    destruct (bt_delete fu c k) as [rc|] eqn:Ed; [|discriminate].
+    pose proof (IH c rc Ed) as Hc. cbn [bt_elems]. intros X.
+    destruct (bt_elems c) as [|x xs] eqn:Ec; [contradiction|].
+    assert (In x (flat_map bt_elems ch)) as Hin.
+    { apply in_flat_map. exists c. split; [eapply nth_error_In; exact En|rewrite Ec; left; reflexivity]. }
+    rewrite X in Hin. destruct Hin.
+Qed.
+
+Lemma set_root_flag_deleted t b lf' :
+  In lf' (bt_leaves (set_root_flag t b)) ->
+  exists lf, In lf (bt_leaves t) /\ get_deleted (lf_ver lf') = get_deleted (lf_ver lf).
+Proof.
+  unfold set_root_flag. destruct t as [l|id ver keys ch]; cbn [bt_set_ver bt_leaves bt_ver].
+  - intros [<-|[]]. exists l. split; [left; reflexivity|]. cbn [lf_ver]. apply gd_root.
+  - intros H. exists lf'. split; [exact H|reflexivity].
+Qed.
+
+Lemma layer_remove_live ls p k ls' gone ret :
+  layer_remove ls p k = Some (ls', gone, ret) -> live_ok ls -> live_ok ls'.
+Proof.
+  unfold layer_remove. intros E Hs.
+  destruct (layer_get ls p) as [root|] eqn:Eg; [|discriminate].
+  destruct (bt_delete (S (bt_height root)) root k) as [[[root'|] ret0]|] eqn:Ed; [| |discriminate].
+  - injection E as <- _ _. destruct p as [|x p].
+    2:{ eapply live_ok_same; [|exact Hs]. apply layer_get_set_other. discriminate. }
+    intros root2 lf2 Eg2 Hin2 Hd. rewrite layer_get_set_same in Eg2. injection Eg2 as <-. exfalso.
+    assert (exists lf1, In lf1 (bt_leaves root') /\ get_deleted (lf_ver lf1) = true) as (lf1 & Hin1 & Hd1).
+    { destruct (N.eqb (bt_id root') (bt_id root)); [exists lf2; split; assumption|].
+      destruct (set_root_flag_deleted root' true lf2 Hin2) as (lf & Hlf & Ev).
+      exists lf. split; [exact Hlf|]. rewrite <- Ev. exact Hd. }
+    apply leaf_versions_in in Hin1.
+    apply (c12_delete_keeps_versions k _ root root' ret0 Ed) in Hin1.
+    apply leaf_versions_inv in Hin1. destruct Hin1 as (lf0 & Hlf0 & Ev0).
+    rewrite <- Ev0 in Hd1.
+    exact (bt_delete_nonempty k _ root _ Ed (Hs root lf0 Eg Hlf0 Hd1)).
+  - destruct p as [|x p].
+    + destruct root as [l|]; [|discriminate].
+      destruct (leaf_lookup l k) as [[[rank slot] s]|] eqn:El; [|discriminate].
+      injection E as <- _ _.
+      intros root2 lf2 Eg2 _ _. rewrite layer_get_set_same in Eg2. injection Eg2 as <-.
+      cbn [bt_delete] in Ed. rewrite El in Ed. cbv zeta in Ed.
+      destruct (N.eqb_spec (leaf_cnk l) 1) as [E1|N1]; [|discriminate].
+      cbn [bt_elems].
+      match goal with |- leaf_entries ?x = [] => pose proof (leaf_entries_length x) as Y; set (lx := x) in * end.
+      assert (leaf_cnk lx = 0) as C0.
+      { unfold lx, leaf_cnk, leaf_with, leaf_delete. cbn [lf_perm].
+        unfold leaf_cnk in E1. rewrite delete_rank_cnk by lia. lia. }
+      rewrite C0 in Y. destruct (leaf_entries lx); [reflexivity|discriminate Y].
+    + injection E as <- _ _. eapply live_ok_same; [|exact Hs]. apply layer_get_del_other. discriminate.
+Qed.
+
+Lemma cascade_live : forall fuel ls p ret ls' ret',
+  cascade fuel ls p ret = Some (ls', ret') -> live_ok ls -> live_ok ls'.
+Proof.
+  induction fuel as [|f IH]; intros ls p ret ls' ret' E Hs; [discriminate|].
+  cbn [cascade] in E. destruct (rev p) as [|s q]; [injection E as <- _; exact Hs|].
+  destruct (layer_remove ls (remove_last p) {| ks := s; kl := 9 |}) as [[[ls1 gone] ret1]|] eqn:El; [|discriminate].
+  pose proof (layer_remove_live _ _ _ _ _ _ El Hs) as Hs1.
+  destruct gone; [eapply IH; eassumption|]. injection E as <- _. exact Hs1.
+Qed.
+
+Lemma remove_walk_live : forall ts p ls ls' o,
+  remove_walk ts p ls = Some (ls', o) -> live_ok ls -> live_ok ls'.
+Proof.
+  induction ts as [|t rest IH]; intros p ls ls' o E Hs; [discriminate|].
+  cbn [remove_walk] in E.
+  destruct (layer_get ls p) as [root|]; [|discriminate].
+  destruct (find_leaf root t) as [l|]; [|discriminate].
+  destruct (leaf_lookup l t) as [[[rk slot] s]|]; [|injection E as <- _; exact Hs].
+  destruct rest as [|t2 r]; [|eapply IH; eassumption].
+  destruct (layer_remove ls p t) as [[[ls1 gone] ret1]|] eqn:El; [|discriminate].
+  pose proof (layer_remove_live _ _ _ _ _ _ El Hs) as Hs1.
+  destruct gone.
+  - destruct (cascade (S (length p)) ls1 p ret1) as [[ls2 ret2]|] eqn:Ec; [|discriminate].
+    injection E as <- _. eapply cascade_live; eassumption.
+  - injection E as <- _. exact Hs1.
+Qed.
+
+Theorem remove_live tr k tr' ro : remove tr k = Some (tr', ro) -> scan_live tr -> scan_live tr'.
+Proof.
+  unfold remove, scan_live. intros E Hs. destruct (t_null tr); [injection E as <- _; exact Hs|].
+  destruct (remove_walk (path_of_key k) [] (t_layers tr)) as [[ls o]|] eqn:Ew; [|discriminate].
+  injection E as <- _. cbn [t_layers]. eapply remove_walk_live; eassumption.
+Qed.
+
+(** *** the invariant of the scan *)
+Definition scan_inv (tr : tree) : Prop := scan_seps tr /\ scan_live tr.
+
+Theorem scan_inv_sound tr : scan_inv tr -> root_live tr /\ rtl_ok (t_layers tr).
+Proof. intros [H1 H2]. split; [apply live_ok_root_live; exact H2|apply seps_ok_rtl; exact H1]. Qed.
+
+Theorem scan_inv_null : scan_inv null_tree.
+Proof. split; [constructor|intros root lf Eg; discriminate Eg]. Qed.
+
+Theorem scan_inv_empty id : scan_inv (empty_tree id).
+Proof.
+  split.
+  - unfold scan_seps, empty_tree. cbn [t_layers]. constructor; [apply seps_good_leaf|constructor].
+  - intros root lf Eg Hin Hd. cbn in Eg. injection Eg as <-. cbn [bt_leaves] in Hin.
+    destruct Hin as [<-|[]]. cbn [lf_ver] in Hd. vm_compute in Hd. discriminate Hd.
+Qed.
+
+Theorem put_scan_inv ctr tr k v unique tr' po ctr' :
+  WF_store ctr tr -> bytes k -> put tr k v unique ctr = Some (tr', po, ctr') -> scan_inv tr -> scan_inv tr'.
+Proof. intros W Hb E [H1 H2]. split; [eapply put_seps; eassumption|eapply put_live; eassumption]. Qed.
+
+Theorem remove_scan_inv tr k tr' ro : remove tr k = Some (tr', ro) -> scan_inv tr -> scan_inv tr'.
+Proof. intros E [H1 H2]. split; [eapply remove_seps; eassumption|eapply remove_live; eassumption]. Qed.
+
+(** the refinement on every store that satisfies the invariant *)
+Theorem scan_refines_inv ctr tr a :
+  WF_store ctr tr -> scan_inv tr -> t_null tr = false -> bytes (sa_l a) -> bytes (sa_r a) ->
+  exists o, scan tr a = Some o /\
+    if spec_scan_args_ok a
+    then so_status o = St_OK /\
+         map (fun kv => (fst kv, abs_value (snd kv))) (so_tuples o) = spec_scan_list (abs_tree tr) a
+    else so_status o = St_ERR_BAD_USAGE /\ so_tuples o = [].
+Proof.
+  intros W Hi Hn Hl Hr. destruct (scan_inv_sound tr Hi) as [H1 H2].
+  exact (scan_refines ctr tr a W Hn Hl Hr H1 (fun _ => H2)).
+Qed.
+
+(** null or not: one statement *)
+Theorem scan_refines_all ctr tr a :
+  WF_store ctr tr -> scan_inv tr -> bytes (sa_l a) -> bytes (sa_r a) ->
+  exists o, scan tr a = Some o /\
+    if spec_scan_args_ok a
+    then so_status o = (if t_null tr then St_OK_ROOT_IS_NULL else St_OK) /\
+         map (fun kv => (fst kv, abs_value (snd kv))) (so_tuples o) = spec_scan_list (abs_tree tr) a
+    else so_status o = St_ERR_BAD_USAGE /\ so_tuples o = [].
+Proof.
+  intros W Hi Hl Hr. destruct (t_null tr) eqn:Hn.
+  - destruct (scan_null tr a Hn) as (o & E & H). exists o. split; [exact E|].
+    destruct (spec_scan_args_ok a); [|exact H]. destruct H as [H1 H2]. split; [exact H1|].
+    rewrite H2. unfold abs_tree. rewrite Hn. symmetry. apply spec_scan_list_nil.
+  - exact (scan_refines_inv ctr tr a W Hi Hn Hl Hr).
+Qed.
+
+(** ** 13. the statement without the two extra hypotheses is false: two well-formed
     (but unreachable) stores on which the scan model and the interval specification differ *)
 Module ScanCounterexamples.
   Definition val (i : N) : value := {| v_id := 100 + i; v_bytes := [i]; v_align := 8; v_inline := false |}.
@@ -1614,7 +2243,7 @@ Module ScanCounterexamples.
   Qed.
 End ScanCounterexamples.
 
-(** ** 13. sanity: the hypotheses are satisfiable on a 39-layer store with interior nodes in
+(** ** 14. sanity: the hypotheses are satisfiable on a 39-layer store with interior nodes in
     two layers, and the theorem describes what the executable model computes *)
 Module ScanExample.
   Definition p8 : key := [7;7;7;7;7;7;7;7].
@@ -1648,6 +2277,28 @@ Module ScanExample.
     split; [apply root_liveb_sound; vm_compute; reflexivity|apply rtl_okb_sound; vm_compute; reflexivity].
   Qed.
 
+  (** the same, through the invariance theorems (no computation on the tree) *)
+  Lemma puts_inv : forall ks tr ctr, WF_store ctr tr -> scan_inv tr -> Forall bytes ks ->
+    exists tr' ctr', StoreExample.puts tr ctr ks = Some (tr', ctr') /\ WF_store ctr' tr' /\ scan_inv tr'.
+  Proof.
+    induction ks as [|k r IH]; intros tr ctr W Hi Hb; [exists tr, ctr; split; [reflexivity|split; assumption]|].
+    apply Forall_cons_iff in Hb. destruct Hb as [Hk Hr].
+    destruct (put_refines ctr tr k (StoreExample.val (N.of_nat (length k))) false W Hk) as (tr' & po & c' & E & W' & _).
+    cbn [StoreExample.puts]. rewrite E. apply IH; [exact W'| |exact Hr].
+    exact (put_scan_inv ctr tr k _ false tr' po c' W Hk E Hi).
+  Qed.
+
+  Example ex_inv : exists ctr, WF_store ctr ex_tree /\ scan_inv ex_tree.
+  Proof.
+    destruct (puts_inv ex_keys (empty_tree 1) 2) as (tr' & c' & E & W & Hi).
+    - apply empty_tree_wf. lia.
+    - apply scan_inv_empty.
+    - apply Forall_forall. intros k Hk. apply StoreExample.bytesb_sound.
+      assert (forallb (fun k => forallb (fun b => b <? 256) k) ex_keys = true) as A by (vm_compute; reflexivity).
+      rewrite forallb_forall in A. apply A. exact Hk.
+    - exists c'. unfold ex_tree. rewrite E. split; assumption.
+  Qed.
+
   (** the theorem applies to every argument record *)
   Example ex_applies a : bytes (sa_l a) -> bytes (sa_r a) ->
     exists o, scan ex_tree a = Some o /\
@@ -1657,7 +2308,7 @@ Module ScanExample.
       else so_status o = St_ERR_BAD_USAGE /\ so_tuples o = [].
   Proof.
     intros Hl Hr. destruct ex_wf as (ctr & W). destruct ex_live as (Hn & Hlive & Hrtl).
-    apply (scan_refines ctr); auto.
+    exact (scan_refines ctr ex_tree a W Hn Hl Hr Hlive (fun _ => Hrtl)).
   Qed.
 
   (** and the executable model agrees with the specification on a grid of arguments:
@@ -1688,8 +2339,10 @@ Module ScanExample.
       [{| sa_l := l; sa_le := le; sa_r := []; sa_re := EP_INF; sa_max := 1; sa_rtl := true;
           sa_lnull := false; sa_rnull := false |}]) eps) endpoints.
 
-  Example ex_checks : length ex_args = 1830%nat /\ forallb (check ex_tree) ex_args = true.
-  Proof. vm_compute. split; reflexivity. Qed.
+  Example ex_args_length : length ex_args = 1830%nat.
+  Proof. vm_compute. reflexivity. Qed.
+  Example ex_checks : forallb (check ex_tree) ex_args = true.
+  Proof. vm_cast_no_check (eq_refl true). Qed.
 End ScanExample.
 
 (** ** axiom audit *)
@@ -1701,8 +2354,15 @@ Print Assumptions scan_layers_partial.
 Print Assumptions scan_rtl_partial.
 Print Assumptions scan_refines.
 Print Assumptions scan_null.
+Print Assumptions scan_inv_null.
+Print Assumptions scan_inv_empty.
+Print Assumptions put_scan_inv.
+Print Assumptions remove_scan_inv.
+Print Assumptions scan_refines_inv.
+Print Assumptions scan_refines_all.
 Print Assumptions ScanCounterexamples.scan_refines_needs_root_live.
 Print Assumptions ScanCounterexamples.scan_refines_needs_rtl_ok.
 Print Assumptions ScanCounterexamples.scan_refines_false_from_WF_store_alone.
+Print Assumptions ScanExample.ex_inv.
 Print Assumptions ScanExample.ex_applies.
 Print Assumptions ScanExample.ex_checks.
